@@ -145,6 +145,7 @@ type inProcessTransportListener struct {
 	addr       InProcessAddr
 	transports chan *inProcessTransport
 	done       chan bool
+	closing    chan struct{} // closed when the listener is closed
 	closed     bool
 	closedMu   sync.RWMutex
 }
@@ -154,6 +155,7 @@ func NewInProcessTransportListener(addr InProcessAddr) TransportListener {
 		addr:       addr,
 		transports: make(chan *inProcessTransport, 1),
 		done:       make(chan bool, 1),
+		closing:    make(chan struct{}),
 	}
 	return l
 }
@@ -162,6 +164,9 @@ func (l *inProcessTransportListener) Close() error {
 	l.closedMu.Lock()
 	defer l.closedMu.Unlock()
 	delete(inProcListeners, l.addr)
+	if !l.closed {
+		close(l.closing)
+	}
 	l.closed = true
 	l.done <- true
 	return nil
@@ -211,7 +216,11 @@ func (l *inProcessTransportListener) newClient(addr InProcessAddr, bufferSize in
 	// Create transport pair
 	client, server := newInProcessTransportPair(addr, bufferSize)
 	go func() {
-		l.transports <- server
+		select {
+		case l.transports <- server:
+		case <-l.closing:
+			// nobody accepts any more
+		}
 	}()
 	return client
 }
